@@ -36,13 +36,14 @@ let kind_ctx (kind : string) =
   | "x" -> (0, 3, Some (ls @ [label "nx"; ex]), None, true)
   | "r" -> (0, 5, Some (ls @ [label "other"]), None, true)
   | "f" -> (0, 1, None, None, true)
+  | "u" -> (0, 16, None, None, true)      (* BADVERS without a question *)
   | "m" -> (0, 0, None, None, false)
   | "o" -> (4, 4, Some (ls @ [ex]), None, true)
   | "v" -> (0, 16, Some (ls @ [ex]), None, true)      (* BADVERS: extended RCODE 16 (low four bits 0) *)
   | _ -> failwith "unknown kind"
 
 let mk_ctx kind edns src transport : Rrl.ctx =
-  let edns = edns || String.sub kind 0 1 = "v" in
+  let edns = edns || String.sub kind 0 1 = "v" || String.sub kind 0 1 = "u" in
   let (op, rc, q, sos, send) = kind_ctx kind in
   let w = { Rrl.w_ancount = n_of_int 1; w_nscount = n_of_int 1; w_arcount = n_of_int (if edns then 2 else 1);
             w_edns = edns; w_tsig = false; w_tc = false; w_rcode = n_of_int rc } in
